@@ -191,3 +191,42 @@ func init() {
 		New:    "splitGammaCtx(gammaNameTypesCtx, p.body.FreeNames(), &p.new_name_c, labelledTypesEnv)",
 		Expect: "cut-split#2"})
 }
+
+func init() {
+	addFixture(Fixture{Name: "select-client-writes-wrong-kind", Rule: "R-PROTOCOL", File: "process/transition.go",
+		Old:    "\t\tmessage := Message{Rule: BRA, Channel1: process.Providers[0], Label: f.label}",
+		New:    "\t\tmessage := Message{Rule: SEL, Channel1: process.Providers[0], Label: f.label}",
+		Expect: "Transition:read:BRA-on-own-by-CaseForm"})
+	addFixture(Fixture{Name: "cast-message-without-channel", Rule: "R-PROTOCOL", File: "process/transition.go",
+		Old:    "\t\tmessage := Message{Rule: CST, Channel1: f.continuation_c}",
+		New:    "\t\tmessage := Message{Rule: CST, Channel2: f.continuation_c}",
+		Expect: "Transition:read:CST-on-client-by-ShiftForm"})
+	addFixture(Fixture{Name: "relay-forgets-cast", Rule: "R-PROTOCOL", File: "process/transition.go",
+		Old:    "\t\tcase CST:\n\t\t\tprocess.Body = NewCast(f.to_c, message.Channel1)\n",
+		New:    "",
+		Expect: "relay:CST"})
+	addFixture(Fixture{Name: "equality-skips-shift-source", Rule: "R-FIELD-COVERAGE", File: "types/types.go",
+		Old:    "\tcase *DownType:\n\t\tf1, ok1 := type1.(*DownType)\n\t\tf2, ok2 := type2.(*DownType)\n\n\t\tif ok1 && ok2 {\n\t\t\treturn f1.To.Equals(f2.To) && f1.From.Equals(f2.From) && innerEqualType",
+		New:    "\tcase *DownType:\n\t\tf1, ok1 := type1.(*DownType)\n\t\tf2, ok2 := type2.(*DownType)\n\n\t\tif ok1 && ok2 {\n\t\t\treturn f1.To.Equals(f2.To) && innerEqualType",
+		Expect: "covered:DownType.From"})
+	addFixture(Fixture{Name: "shared-visited-set", Rule: "R-INFER-PURE", File: "types/modality.go",
+		Old:    "\tfor i := range typesDef {\n\t\tmode := typesDef[i].SessionType.inferModality(labelledTypesEnv, make(map[string]bool))",
+		New:    "\tused := make(map[string]bool)\n\tfor i := range typesDef {\n\t\tmode := typesDef[i].SessionType.inferModality(labelledTypesEnv, used)",
+		Expect: "root-inference"})
+	addFixture(Fixture{Name: "names-merged-by-ident", Rule: "R-NAME-EQ", File: "process/form.go",
+		Old:    "\tfor _, n := range names {\n\t\tif n.Equal(check) {\n\t\t\treturn true\n\t\t}\n\t}\n\n\treturn false\n}\n\n// Merges two lists",
+		New:    "\tfor _, n := range names {\n\t\tif n.Ident == check.Ident {\n\t\t\treturn true\n\t\t}\n\t}\n\n\treturn false\n}\n\n// Merges two lists",
+		Expect: "process.nameExists"})
+	addFixture(Fixture{Name: "shallow-copy-of-wait", Rule: "R-COPY-DEEP", File: "process/form.go",
+		Old:    "\t\t\tbody := CopyForm(p.continuation_e)\n\t\t\treturn NewWait(*p.to_c.Copy(), body)",
+		New:    "\t\t\treturn NewWait(*p.to_c.Copy(), p.continuation_e)",
+		Expect: "NewWait-arg2"})
+	addFixture(Fixture{Name: "function-unique-by-arity", Rule: "R-FUNC-KEY", File: "process/typechecker.go",
+		Old:    "\t\texists := unique[f.FunctionName]\n\t\tif exists {\n\t\t\treturn fmt.Errorf(\"(%s) function %s uses a duplicate function name\", f.Position.String(), f.String())\n\t\t}\n\t\tunique[f.FunctionName] = true",
+		New:    "\t\tkey := fmt.Sprintf(\"%s/%d\", f.FunctionName, len(f.Parameters))\n\t\texists := unique[key]\n\t\tif exists {\n\t\t\treturn fmt.Errorf(\"(%s) function %s uses a duplicate function name\", f.Position.String(), f.String())\n\t\t}\n\t\tunique[key] = true",
+		Expect: "function-uniqueness-key"})
+	addFixture(Fixture{Name: "receive-same-binders", Rule: "R-FRESH-BINDER", File: "process/typechecker.go",
+		Old:    "\t\tif p.payload_c.Equal(p.continuation_c) {\n\t\t\treturn TypeErrorf(\"variable names <%s, %s> are the same. Use unique names\", p.payload_c.String(), p.continuation_c.String())\n\t\t}\n\n\t\tif isProvider(p.payload_c, providerShadowName) ||",
+		New:    "\t\tif isProvider(p.payload_c, providerShadowName) ||",
+		Expect: "distinct-binders:p.continuation_c,p.payload_c"})
+}
